@@ -28,3 +28,31 @@ def run(ctx):
     from . import callsigs as _cs
     _cs.general_rules(ctx, 'R7', ['writer.write', 'writer.write_simple', 'writer.write_multi', 'writer.partition_on_columns', 'writer.make_part_file', 'api.ParquetFile.write_row_groups', 'writer.write_common_metadata', 'writer.consolidate_categories', 'api.ParquetFile._dtypes', 'api.ParquetFile._set_attrs', 'writer.write_column', 'writer.make_row_group'])
     ar.single_pass_data_rule(ctx, 'R7.5')
+    r77(ctx)
+
+
+def r77(ctx, rule='R7.7'):
+    """category codes are written per row group, the categories object of the output column is shared by all row
+    groups of a read: installing a row group's dictionary as the categories must either find the categories already
+    installed unchanged or remap the codes written so far - i.e. the install is conditioned on the installed ones"""
+    import ast
+    from ..model import callee, norm, walk_no_nested
+    from ..cfg import CFG
+    core = ctx.repo['core']
+    f = core.func('read_col')
+    cfg = CFG(f)
+    calls = [c for c in walk_no_nested(f) if isinstance(c, ast.Call) and (callee(c) or '').endswith('._set_categories')]
+    ctx.floor(rule, 'category installs in core.read_col', len(calls), 2)
+    for c in calls:
+        st = None
+        for nd in cfg.nodes:
+            if nd.stmt is not None and any(x is c for x in ast.walk(nd.stmt)) and not isinstance(nd.stmt, (ast.If, ast.For, ast.While, ast.Try, ast.With)):
+                st = nd.stmt
+        tests = [norm(e.test) for e, fld in cfg.enclosing_tests(st) if isinstance(e, (ast.If, ast.While))] if st is not None else []
+        target = norm(c.func.value)
+        looks = any(('%s.categories' % target) in t or ('%s.dtype.categories' % target) in t for t in tests)
+        # the multi-index path installs into a private level, once per chunk
+        private = target != 'catdef'
+        ctx.ob(rule, 'core.read_col:category-install-conditioned-on-installed-categories:%s' % norm(c)[:50], looks or private,
+               '`%s` under %s: a later row group whose dictionary differs re-labels the codes of all earlier row groups' % (
+                   norm(c)[:70], tests or 'no test of the installed categories'), core.loc(c))
